@@ -71,14 +71,18 @@ def h_tag_function(g: int, j: int, ws: int, n: int, c0: int, c1: int, s: str, v:
         except TypeError:
             return True
         return False
+    exp_ws = default if ws == 0 else ws == 1
+    # an attribute dict is attributes and nothing else: keys spelt like the constructor's own parameters are ordinary attribute names
+    # (the value of "_add_ws" is the opposite of the flag the call must end up with)
+    odd = {"_add_ws": not exp_ws, "_name": "nm", "children": "ch"}
     if ws == 0:
-        t = f(s, {"id": v}, [child, None, s], **kw)
-        exp_ws = default
+        t = f(s, {"id": v}, [child, None, s], odd, **kw)
     else:
-        exp_ws = ws == 1
-        t = f(s, {"id": v}, [child, None, s], _add_ws=exp_ws, **kw)
-    ref = Tag(name, s, {"id": v}, [child, None, s], _add_ws=exp_ws, **kw)
+        t = f(s, {"id": v}, [child, None, s], odd, _add_ws=exp_ws, **kw)
+    ref = Tag(name, s, {"id": v}, [child, None, s], odd, _add_ws=exp_ws, **kw)
     if type(t) is not Tag or t.name != name or t.add_ws is not exp_ws:
+        return False
+    if t.attrs.get("-add-ws") != (None if exp_ws else "") or t.attrs.get("-name") != "nm" or t.attrs.get("children") != "ch":
         return False
     if list(t.attrs.items()) != list(ref.attrs.items()):
         return False
